@@ -72,7 +72,7 @@ PROPERTY_META = {
     'C16': dict(
         deadline_quick=300, deadline_thorough=1500, engine='E2-HBFS', design_ref='5/C16',
         technique='exhaustive lattice pairs on the stateless projected space; explicit-state BFS over operation sequences of the stateful atlas / tangent-bundle spaces with the chart list as canonical state; sampler calls under the choice oracle',
-        level_text='5 manifolds (spheres in R^3/R^4, torus, plane, sphere-plane intersection) x 3 (delta, lambda, tolerance) settings. Projected: all ordered pairs of an on-manifold lattice through '
+        level_text='5 manifolds (spheres in R^3/R^4, torus, plane, sphere-plane intersection) x 3 (delta, lambda, tolerance) settings (5 for the projected space: lambda = 1.1, 1.02 added). Projected: all ordered pairs of an on-manifold lattice through '
                    'discreteGeodesic (every state on the manifold, step <= lambda*delta, success => within delta) and interpolate; all sampler modes under products / <= 2 deviations of oracle answers. '
                    'Atlas and tangent bundle: BFS over all op sequences up to depth 4 (thorough 5) with the chart list as state, same oracles each step. RRT/KPIECE1 on the sphere under all single '
                    'deviations: every solution vertex on the manifold.',
@@ -102,7 +102,7 @@ PROPERTY_META = {
         deadline_quick=420, deadline_thorough=1700, engine='E1-DBE', design_ref='5/C17',
         technique='exhaustive enumeration of all short valid waypoint paths x routines x parameters x deviation-bounded answer streams of the routines\' random draws; exhaustive counts for densification; all small sets for hybridization',
         level_text='4 worlds: every sequence of 2..4 (thorough 5) waypoints with valid segments (repeated states, zero-length segments) through reduceVertices, partial/rope shortcut, '
-                   'collapseCloseVertices, smoothBSpline, perturbPath, findBetterGoal, simplify, simplifyMax under 3 parameter settings and every answer stream with <= D deviations among the first '
+                   'collapseCloseVertices, smoothBSpline, perturbPath, findBetterGoal, simplify, simplifyMax under 3-5 parameter settings (path length and a linear cost-field objective for the cost-aware routines) and every answer stream with <= D deviations among the first '
                    'N draws: end points, bounds, dense validity, no lengthening / no worse own objective, success => check(). interpolate(count) for every count, interpolate(), subdivide(); '
                    'hybridization of all sets of <= 3 recorded paths.',
         level_note=DBE_NOTE),
@@ -110,7 +110,7 @@ PROPERTY_META = {
         deadline_quick=300, deadline_thorough=1500, engine='E1-DBE', design_ref='5/C02',
         technique='deviation-bounded exhaustive exploration of every random answer, state sample and control sample of the real control planners; oracle re-propagates every segment with an independent copy of the system',
         level_text='control::RRT (with/without intermediate states), SST, EST, KPIECE1, PDST, SyclopRRT, SyclopEST x point and unicycle (wrapped heading, asymmetric control bounds) systems x step '
-                   'sizes x min/max durations x maps: every execution with <= D deviations among the first N choice points plus the full product over the first control/state samples; each '
+                   'sizes x min/max durations x maps, the library\'s k-candidate directed control sampler (k = 2, 3) and a steering propagator (SteeredControlSampler): every execution with <= D deviations among the first N choice points plus the full product over the first control/state samples; each '
                    '(state, control, duration) of every reported path is replayed step by step: whole number of steps, every step valid, next state reproduced, controls in bounds, goal/approximate coherent.',
         level_note=DBE_NOTE + ' Controls come from a 12/16-element set including the bounds.'),
     'C20': dict(
@@ -134,8 +134,8 @@ PROPERTY_META = {
         deadline_quick=500, deadline_thorough=1700, engine='E1-DBE', design_ref='5/C03',
         technique='exhaustive enumeration of the termination index (every k up to past the first solution) x call histories on the real planners under the choice oracle; allocation-counting state space; for the always-multi-threaded planners (PRM, PRM*, SPARS, SPARStwo, CForest) the termination index is crossed with ALL thread schedules with <= P preemptions (E4 schedule explorer)',
         level_text='37 single-threaded geometric and multilevel planners x 3 worlds: lifecycle probes with tiny budgets first, then the termination condition first fires at EVERY evaluation index k = 0..K+5, crossed with call histories over solve / '
-                   'clear / clearQuery / setProblemDefinition / getPlannerData (10 curated; thorough: all of length <= 4 and single deviations of the answer stream). Per call: bounded further '
-                   'evaluations, status vs. delta of the solution set, C01 path oracle for the current query, nothing of the old query after clear/switch, monotone best solution, ASan; after '
+                   'clear / clearQuery / setProblemDefinition / getPlannerData / ProblemDefinition::clearSolutionPaths (14 curated incl. resumes with an expired budget; thorough: all of length <= 4 and single deviations of the answer stream). Per call: bounded further '
+                   'evaluations, status vs. delta of the solution set, Invalid start/goal only without a valid start/goal, an exact solution is reported again after the user emptied the solution list, C01 path oracle for the current query, nothing of the old query after clear/switch, monotone best solution, ASan; after '
                    'teardown the counting state space must hold no live state and have seen no double free. PRM, PRM*, SPARS, SPARStwo (solution-checking thread) and CForest (2 workers) run under '
                    'the E4 scheduler: 3 worlds x k in {0,1,2,3,5,8,13,21} (thorough 0..40; CForest 0..8) x interrupt / resume / clear+interrupt x every schedule with <= 1 (thorough 2; CForest 0, '
                    'thorough 1) preemptions, the termination count taken over all threads of the planner.',
@@ -144,7 +144,7 @@ PROPERTY_META = {
     'C01': dict(
         deadline_quick=420, deadline_thorough=1700, engine='E1-DBE', design_ref='5/C01',
         technique='deviation-bounded exhaustive exploration of every random answer and state sample of the real planners (choice oracle), independent dense path oracle on every execution; the always-multi-threaded planners (PRM, PRM*, SPARS, SPARStwo) under ALL thread schedules with <= P preemptions (E4 schedule explorer) with the same oracle',
-        level_text='37 single-threaded geometric and multilevel planners (incl. QRRT, QRRT*, QMP, QMP* with the level sequence R^2 <- SE(2) on SE(2) problems; reduced configuration set for these in the quick tier) x 16+ configurations (9 maps incl. corner-cut diagonal, U-trap, corridor, enclosed goal, obstacle on start/goal; R^2, SE(2), Dubins, '
+        level_text='37 single-threaded geometric and multilevel planners (incl. QRRT, QRRT*, QMP, QMP* with the level sequence R^2 <- SE(2) on SE(2) problems; reduced configuration set for these in the quick tier), 19 option variants of them (r-disc / no delayed collision checking / pruning / rejection sampling / intermediate states / JIT sampling ... : the non-default branches of solve()) and VFRRT, TSRRT, XXL x 16+ configurations (incl. three start states, the first invalid) (9 maps incl. corner-cut diagonal, U-trap, corridor, enclosed goal, obstacle on start/goal; R^2, SE(2), Dubins, '
                    'Reeds-Shepp; goal state/states/unsampleable region; thresholds, ranges, resolutions): every execution with <= D deviations among the first N choice points plus the full '
                    'product over the first state samples, each on fresh objects with termination at a fixed evaluation index; crashes/hangs isolated in forked children and replayed alone. '
                    'PRM, PRM*, SPARS, SPARStwo: 3 maps x budgets {8,34} (thorough {3,8,13,21,34,55}) x solve + continued solve x every schedule with <= 1 (thorough 2) preemptions.',
@@ -154,7 +154,7 @@ PROPERTY_META = {
         technique='exhaustive products of boundary-value inputs for enforceBounds; for every sampler call, full product of oracle answers over the first draws plus all <=2-deviation answer streams (RNG hook H1)',
         level_text='enforceBounds on 27 space configurations over lattice states and products of wild per-coordinate alphabets (in bounds afterwards, unchanged if in bounds, idempotent). '
                    'Every default/subspace/compound/wrapper sampler x uniform/near/Gaussian x centres x distance scales, with every primitive random draw answered by the enumerated oracle '
-                   '(u=0, u=1-2^-53, |z|=8 included); six valid-state samplers on an obstacle world with attempts 1,2,5.',
+                   '(u=0, u=1-2^-53, |z|=8 included); six valid-state samplers on an obstacle world with attempts 1,2,5; the first 8192 (thorough 65536) samples of the deterministic Halton samplers for R^3, SE(2), SO(2) under five bounds.',
         level_note=LPE_NOTE + ' Randomness is owned through hook H1 (RNG primitives), so the library arithmetic on top of the primitives is what runs.'),
     'C09': dict(
         deadline_quick=300, deadline_thorough=1500, engine='E3-LPE', design_ref='5/C09',
@@ -166,8 +166,8 @@ PROPERTY_META = {
     'C06': dict(
         deadline_quick=240, deadline_thorough=1500, engine='E3-LPE', design_ref='5/C06',
         technique='exhaustive enumeration of all ordered pairs and triples of a boundary-value state lattice per space configuration against the real distance()',
-        level_text='27 space configurations (R^n incl. negative/huge/zero-width bounds, SO(2), SO(3), SE(2), SE(3), time bounded/unbounded, discrete, torus, sphere r=1,3, '
-                   'Moebius x3, Klein bottle, Dubins plain/symmetric, Reeds-Shepp, wrappers, weighted and nested compounds, hybrid): every ordered pair of the lattice for '
+        level_text='34 space configurations (R^n incl. negative/huge/zero-width bounds, SO(2), SO(3), SE(2), SE(3), time bounded/unbounded, discrete, torus, sphere r=1,3, '
+                   'Moebius x3, Klein bottle, Dubins plain/symmetric, Reeds-Shepp (turning radii 0.5, 1, 2), wrappers, weighted, zero-weight and nested compounds, hybrid): every ordered pair of the lattice for '
                    'non-negativity, identity, positivity, extent, symmetry-iff-claimed, compound = weighted sum; every ordered triple for the triangle law where isMetricSpace().',
         level_note=LPE_NOTE),
     'C07': dict(
@@ -189,7 +189,7 @@ PROPERTY_META = {
     'C10': dict(
         deadline_quick=420, deadline_thorough=1500, engine='E2-HBFS', design_ref='5/C10',
         technique='explicit-state BFS over op histories of the real GNAT/GNATNoThreadSafety/Linear/SqrtApprox with canonical tree states; brute-force oracle on every query in every state',
-        level_text='All histories of add / add(vector) / remove(present) / remove(absent) / clear up to the depth bound (deduplicated on the full private tree) '
+        level_text='All histories of add / add(copy of a held element) / add(vector) / remove(present) / remove(absent) / clear up to the depth bound (deduplicated on the full private tree) '
                    'for 8 GNAT parameterisations x 2 variants x 3 metrics with ties, duplicates and far clusters; the k-centers pivot draw and the '
                    'NoThreadSafety child permutation are enumerated environment answers (hooks H1/H2). In every state size, list, nearest, nearestK, nearestR '
                    'are compared position by position with brute force.',
@@ -197,14 +197,14 @@ PROPERTY_META = {
     'C12': dict(
         deadline_quick=300, deadline_thorough=1500, engine='E2-HBFS', design_ref='5/C12',
         technique='explicit-state BFS over op histories of the real PDF, state = bit pattern of the private sum tree; prefix-sum oracle for boundary-value r in every state',
-        level_text='All add/update/remove/clear histories up to the depth bound over weights {0,1,2,0.1,0.3,1e16} (zeros, non-representable sums, huge ratios); in every '
+        level_text='All add/update/remove/clear histories up to the depth bound over weights {0,1,2,0.1,0.3,1e16} (zeros, non-representable sums, huge ratios) and {0,1e-17,2e-17,3e-18} (changes below any absolute epsilon); in every '
                    'state sample(r) is evaluated at 0, 2^-64, 1-2^-53, 1, every cumulative boundary +-1ulp and interval midpoints against long-double prefix sums, '
                    'with ASan (vector annotations) and a live-element address check deciding memory safety.',
         level_note=HBFS_NOTE + ' Rounding allowance as stated in evidence.assumptions.'),
     'C13': dict(
         deadline_quick=300, deadline_thorough=1500, engine='E2-HBFS', design_ref='5/C13',
         technique='explicit-state BFS over op histories of the real Grid/GridN/GridB, state = cells with private counters/flags + both heap arrays; set-of-cells reference model',
-        level_text='All createCell+add / remove+destroyCell / update / updateAll / clear histories up to the depth bound on 1-, 2- (and 3-)dimensional coordinate alphabets with and '
+        level_text='All createCell+add / createCell+remove-without-add / remove+destroyCell / update / updateAll / clear histories up to the depth bound on 1-, 2- (and 3-)dimensional coordinate alphabets with and '
                    'without bounds and interior-limit override, two ordering functors; every state: lookups, neighbours (all overloads, symmetry), components, neighbour counts, '
                    'border flags, queue membership, tops and counts against a set-of-cells model.',
         level_note=HBFS_NOTE),
